@@ -1,3 +1,4 @@
+import Rp2.Proofs.Truncate
 import Rp2.Proofs.ComputeWindow
 import Rp2.Proofs.Prefix
 /-! # C09 — later transactions never change results already computed for earlier periods -/
@@ -19,4 +20,21 @@ theorem model_to_date_run_is_prefix_of_full_run (asset : String) (acctName : Nat
     (hmono : ∀ fs, computeFractions sched ins outs intras = .ok fs → fs.Pairwise (fun a b => a.ev.ts.day ≤ b.ev.ts.day)) :
     ∃ fs, computeFractions sched ins outs intras = .ok fs ∧ cd.fracs.map (·.f) = fs.filter (fun f => decide (f.ev.ts.day ≤ t) && true) :=
   compute_fracs_window asset acctName period allowNeg none t sched ins outs intras cd h hmono
+/-- **C09 on the executable pipeline, full statement**: computing on the history truncated at date `T` (every transaction dated after
+    `T` removed) yields exactly the fractions of the full computation whose taxable event is dated up to `T` — same lot pairing, same
+    amounts, and (the figures being functions of event, lot and amount) same proceeds, cost bases, gains and long/short flags.
+    Equivalently: adding transactions dated after `T` changes nothing computed for events up to `T`.
+    Hypotheses: table in sheet order; `SameInstantSameYear` (F7); `DatesMonotone` = `LocalDatesMonotone` (F6) for lots, events and
+    lot/event pairs. Uses `filter_mergeSort` (a stable sort commutes with filtering), the specification's prefix theorem and the
+    engine refinement on both histories. -/
+theorem model_truncated_history_same_fractions (sched : List (Int × Method)) (ins : List InTx) (outs : List OutTx) (intras : List IntraTx)
+    (fs : List Fraction) (T : Int)
+    (hord : SheetOrder ins) (hy : SameInstantSameYear (taxableEvents ins outs intras)) (hm : DatesMonotone ins outs intras)
+    (h : computeFractions sched ins outs intras = .ok fs) :
+    computeFractions sched (ins.filter (keepIn T)) (outs.filter (keepOut T)) (intras.filter (keepIntra T)) =
+      .ok (fs.filter (fun f => decide (f.ev.ts.day ≤ T))) := computeFractions_truncate sched ins outs intras fs T hord hy hm h
+/-- a stable sort commutes with filtering (used to relate the sorted views of a history and of its truncation) -/
+theorem stable_sort_commutes_with_filter {α : Type} (le : α → α → Bool) (trans : ∀ (a b c : α), le a b → le b c → le a c)
+    (total : ∀ (a b : α), le a b || le b a) (q : α → Bool) (l : List α) :
+    (l.mergeSort le).filter q = (l.filter q).mergeSort le := filter_mergeSort le trans total q l
 end Rp2.C09
